@@ -1431,13 +1431,14 @@ Qed.
 (* plain assignment: the copy is stored in the left cell *)
 Lemma assign_plain : forall src n tok left right s v,
   (forall p, load (hp s) left <> VNil (Some p)) ->
+  (forall nf p, load (hp s) left <> VNative nf (Some p)) ->
   copy_value (load (hp s) right) = Some v ->
   eval_assignment src n tok left right s = (Ok left, set_hp s (store (hp s) left v)).
 Proof.
-  intros src n tok left right s v Hns Hcopy.
+  intros src n tok left right s v Hns Hnn Hcopy.
   unfold eval_assignment. unfold bind at 1. unfold m_load at 1.
-  destruct (load (hp s) left) as [| | | | |[p|]| | | |] eqn:Hl;
-    try (exfalso; now apply (Hns p));
+  destruct (load (hp s) left) as [| | | | |[p|]|nf [p|]| | |] eqn:Hl;
+    try (exfalso; now apply (Hns p)); try (exfalso; now apply (Hnn nf p));
     unfold bind, ret, m_load, m_store, upd_heap; rewrite Hcopy; reflexivity.
 Qed.
 
